@@ -252,6 +252,11 @@ class BodyInfo:
         res = []
         for e in self.switches:
             path = self._path_from_site(e["subject"], site.block)
+            if path is None and self._mentions_phi(e["subject"]) and getattr(site, "dest_local", None) is not None:
+                # `let polled = match i { 0 => a.poll(cx), 1 => b.poll(cx), .. }; match polled { .. }`: the tested local
+                # has one definition per arm, each the direct result of a call; the (shared) test is a test of this
+                # site's result on every path that comes from this site
+                path = self._path_from_shared_result(e["subject"], site)
             if path is None and self._mentions_phi(e["subject"]):
                 # the result was parked in a carrier (`let polled = match .. { .. => Some(fut.poll(cx)), .. => None };
                 # match polled { Some(Poll::Ready(x)) => ..`): read the subject back through the carrier's definitions
@@ -263,6 +268,26 @@ class BodyInfo:
             if path is not None:
                 res.append((tuple(path), e))
         return res
+
+    def _path_from_shared_result(self, term, site):
+        path = []
+        t = term
+        while isinstance(t, tuple) and t and t[0] in ("variant", "field"):
+            path.append((t[0], t[2]))
+            t = t[1]
+        if not (isinstance(t, tuple) and t and t[0] == "phi" and t[1] == site.dest_local):
+            return None
+        # every definition of the local is a call destination (no literal, no copy of something else)
+        body = self.body
+        for blk in body.reachable:
+            if body.is_cleanup(blk):
+                continue
+            for st in body.stmts(blk):
+                if st["k"] == "assign" and st["lhs"]["l"] == t[1] and not st["lhs"]["p"]:
+                    return None
+        if t[1] in self.T._mut_borrowed():
+            return None
+        return list(reversed(path))
 
     @staticmethod
     def _mentions_phi(t):
